@@ -165,6 +165,10 @@ func poolConfigs(prop string, thorough bool) (cfgs []poolCfg, depth int) {
 			Setup: append(readyPool(1), "pick(plain,,L,g,d1)", "pick(plain,,L,g,d1)", "adv(2)", "done(0,cde)", "state(1,CONNECTING)")}
 		rr.A = alphabet{States: "basic", Cmds: []string{"plain"}, Gens: []string{"L"}, Ctx: []string{"g,d1"}, Done: []string{"ok", "cde"}, Adv: []int{2}, MaxOpen: 3, MaxSC: 5}
 		add(rr)
+		// round-robin BIND calls are placed by rotation, whatever the load: they never grow the pool
+		rg := poolCfg{Name: "C03 min=2 max=3 wm=1 rr", Min: 2, Max: 3, WM: 1, RR: true, Depth: 5, Setup: readyPool(2)}
+		rg.A = alphabet{States: "basic", Cmds: []string{"bind", "plain"}, Gens: []string{"L"}, Ctx: []string{"g"}, Done: []string{"ok"}, MaxOpen: 4, MaxSC: 4}
+		add(rg)
 		// same with a low watermark: calls that were open on the old connection at the swap must be
 		// un-counted when they complete, or the channel looks saturated and the pool grows for nothing
 		rw := poolCfg{Name: "C03 min=1 max=2 wm=2 root=refreshing", Min: 1, Max: 2, WM: 2, RefCalls: 1, RefMs: 1, Depth: 5,
@@ -195,6 +199,11 @@ func poolConfigs(prop string, thorough bool) (cfgs []poolCfg, depth int) {
 		re.A = alphabet{Resolve: []string{"a2", "empty"}, ResErr: true, States: "full", Shutdown: true, Cmds: []string{"plain"}, Gens: []string{"L"},
 			Ctx: []string{"g"}, Done: []string{"ok"}, MaxOpen: 1, MaxSC: 3}
 		add(re)
+		// a READY connection reports CONNECTING directly (gRPC resets the transport when UpdateAddresses
+		// drops the address in use): a READY-ness change like any other
+		rc := poolCfg{Name: "C04 pool=2 ready-to-connecting", Min: 2, Max: 2, WM: 100, Setup: readyPool(2), Depth: 4}
+		rc.A = alphabet{States: "basic", R2C: true, Cmds: []string{"plain"}, Gens: []string{"L", "P"}, Ctx: []string{"g"}, Done: []string{"ok"}, MaxOpen: 1, MaxSC: 3}
+		add(rc)
 		// nothing resolved yet: the first resolver results may be empty (no connection can be created)
 		fr := poolCfg{Name: "C04 min=1 max=2 fresh", Min: 1, Max: 2, WM: 100, Depth: 5}
 		fr.A = alphabet{Resolve: []string{"a1", "empty"}, ResErr: true, States: "full", Cmds: []string{"plain"}, Gens: []string{"L"},
@@ -306,7 +315,7 @@ func poolConfigs(prop string, thorough bool) (cfgs []poolCfg, depth int) {
 				}
 			}
 		}
-		for _, k := range []int{3, 5} {
+		for _, k := range []int{3, 5, 6, 8} {
 			r := refreshedK("C07", k, alphabet{})
 			add(r)
 		}
@@ -399,6 +408,10 @@ func poolConfigs(prop string, thorough bool) (cfgs []poolCfg, depth int) {
 			Setup: append(readyPool(2), "pick(plain,,L,g,d1)", "adv(2)", "done(0,cde)", "state(0,SHUTDOWN)", "state(2,CONNECTING)", "state(2,READY)")}
 		sr.A = alphabet{States: "basic", Cmds: []string{"bind", "plain"}, Gens: []string{"L"}, Ctx: []string{"g"}, Done: []string{"ok"}, MaxOpen: 3, MaxSC: 4}
 		add(sr)
+		// rotation is independent of load: one channel already carries very many streams
+		ld := poolCfg{Name: "C09 pool=2 root=loaded-channel", Min: 2, Max: 2, WM: 100, RR: true, Depth: 4, Setup: append(readyPool(2), "streams(0,150)")}
+		ld.A = alphabet{Cmds: []string{"bind", "plain"}, Gens: []string{"L"}, Ctx: []string{"g"}, Done: []string{"ok"}, MaxOpen: 4, MaxSC: 3}
+		add(ld)
 		g := poolCfg{Name: "C09 growth min=2 max=3 wm=1", Min: 2, Max: 3, WM: 1, RR: true, Setup: readyPool(2)}
 		g.A = alphabet{States: "basic", Cmds: []string{"bind", "plain"}, Gens: []string{"L"}, Ctx: []string{"g"}, Done: []string{"ok"}, MaxOpen: 3, MaxSC: 3}
 		add(g)
